@@ -250,8 +250,8 @@ TRUSTED = [
 ]
 
 
-def run_loop_check(chk, oracle_fn, focus, what):
-    """oracle_fn(n, links, impl_trace_coq) -> Coq boolean expression."""
+def run_loop_check(chk, oracle_fn, focus, what, accept=lambda o: o == "true"):
+    """oracle_fn(n, links, impl_trace_coq) -> Coq expression; accept(parsed value) -> bool."""
     quick = chk.tier == "quick"
     ok_proofs = chk.proofs()
     factor = 1 if ok_proofs else 4
@@ -302,7 +302,7 @@ def run_loop_check(chk, oracle_fn, focus, what):
             chk.count("op." + o[0])
         vi = per_actor(itr, n)
         desc = {"scenario": to_line(sc), "impl_trace": it}
-        if oracle != "true" and not (isinstance(oracle, list) and not any(oracle)):
+        if not accept(oracle):
             chk.violation(f"{what}: oracle rejects the implementation's trace (verdict {show_term(oracle)})",
                           f"{chk.prop} oracle rejects the implementation trace; verdict = {show_term(oracle)}\n"
                           + json.dumps(desc, indent=1) + "\nreplay: echo '<scenario>' | harness/target/debug/eng_world\n")
